@@ -1,0 +1,25 @@
+//go:build verif
+
+package diagnostic
+
+import "github.com/smarthome-go/homescript/v3/homescript/errors"
+
+var _ = errors.VRenderable // used in contracts
+
+// Contracts checked by /verif/hvc (build tag verif only; see /verif/DESIGN.md, C08).
+
+// VWholeFile: the explicit whole-file position.
+func VWholeFile(s errors.Span) bool {
+	return s.Start.Line == 0 && s.Start.Column == 0 && s.End.Line == 0 && s.End.Column == 0
+}
+
+/*@ func (d Diagnostic) Display
+    serves C08
+    requires VWholeFile(d.Span) || errors.VRenderable(d.Span, program)
+    requires d.Level <= DiagnosticLevelError
+@*/
+
+/*@ func (self DiagnosticLevel) String
+    serves C08
+    requires self <= DiagnosticLevelError
+@*/
